@@ -214,12 +214,13 @@ def _anchor_component(ctx, provider="zoneinfo"):
                         raise AnalysisError(f"alarm computation leaves the abstract interface "
                                             f"for [{key}]: {e}")
                     dropped = [t for t, tag in got if tag == "seconds-dropped"]
-                    moved = [t for t, tag in got if tag == "instant-moved"]
+                    moved = [t for t, tag in got if tag == "instant-moved" or
+                             (tag == "elapsed-arith" and provider == "zoneinfo")]
                     ctx.check(sorted(t for t, _ in got) == sorted(exp) and not dropped and not moved,
                               "C14/ANCHOR", key,
                               f"alarm times {[t for t, _ in got]}"
                               f"{' (time-of-day part of a duration dropped by date arithmetic)' if dropped else ''}"
-                              f"{' (the instant is moved: a pytz wall clock with a stale offset is re-read in the zone, or a difference of instants is added to a wall clock of another zone)' if moved else ''}"
+                              f"{' (the instant is moved: the time was computed on the UTC line and converted back - elapsed-time instead of wall-clock arithmetic, off by the DST change under zoneinfo -, or a pytz wall clock with a stale offset is re-read in the zone, or a difference of instants is added to a wall clock of another zone)' if moved else ''}"
                               f", expected {exp}", al_cls.loc(), detail=", ".join(exp) or "no times")
     if provider != "zoneinfo":
         ctx.extra["component_cases_pytz"] = n
